@@ -446,6 +446,8 @@ def replay(cex):
     il2c = [[int(x) for x in g] for g in il2]
     Rd = np.asarray(Rm.toarray() if hasattr(Rm, "toarray") else Rm, dtype=float)
     bad = []
+    if hasattr(Rm, "toarray") != sparse:
+        bad.append(f"{'sparse' if sparse else 'dense'} input gave a {type(Rm).__name__}")
     P2 = il2c
     exp = np.array(lump(M0, P2, del2, 0.0, _fsum), dtype=float).reshape(len(P2), len(P2)) if il2c in accept else None
     if il2c not in accept:
